@@ -35,6 +35,8 @@
 (*                            content                                      *)
 (*   Defect_NoLiveLoad        finalize does not load the snapshot into the *)
 (*                            running state machine                        *)
+(*   Defect_InstallKeepsTmp   loading the snapshot leaves a temporary      *)
+(*                            (echoed) config value in place               *)
 (*   Defect_ReinstallOnDup    the final chunk arriving AGAIN after the     *)
 (*                            install was completed (its answer was lost)  *)
 (*                            opens a new session and installs the empty   *)
@@ -46,7 +48,8 @@ CONSTANTS
     CKeys, Contents, NsIds, NsNames, UKeys, UVals, SKeys, HistMax,
     MemberSets,             \* membership values the leader may switch between
     MaxChunks, MaxLog, MaxOps,
-    Defect_AppendMode, Defect_BeginAtZero, Defect_NoTruncate, Defect_NoLiveLoad, Defect_ReinstallOnDup
+    Defect_AppendMode, Defect_BeginAtZero, Defect_NoTruncate, Defect_NoLiveLoad, Defect_ReinstallOnDup,
+    Defect_InstallKeepsTmp
 
 VARIABLES
     llog,       \* leader log: data requests and [t |-> "members", m |-> set]
@@ -59,9 +62,10 @@ VARIABLES
     ffile,      \* follower: content of the file the next install writes to (sequence of cells <<idx, c>>)
     sess,       \* follower: install session [offset] or NoSess  (in memory)
     strm,       \* leader: running stream [idx, k, next] or NoStrm
+    ftmp,       \* follower: config keys that hold a temporary value (the echo of a publish the follower routed)
     ops, hist
 
-vars == <<llog, lsnap, nextHid, fup, flast, fsm, fmem, finst, ffile, sess, strm, ops, hist>>
+vars == <<llog, lsnap, nextHid, fup, flast, fsm, fmem, finst, ffile, sess, strm, ftmp, ops, hist>>
 
 SM == INSTANCE StateMachine WITH log <- <<>>, applied <- 0, sm <- 0, snaps <- <<>>, partial <- 0, capturing <- 0,
                                  ops <- 0, hist <- <<>>, Defect_StaleSnapshotTail <- FALSE, Defect_NonAtomicCapture <- FALSE,
@@ -89,12 +93,12 @@ WriteAt(file, pos, data) ==
                        ELSE IF i <= Len(file) THEN file[i] ELSE <<0, 0>>]
 
 Step(rec) == /\ ops < MaxOps /\ ops' = ops + 1 /\ hist' = Append(hist, rec)
-Obs == [last |-> flast', sm |-> fsm', mem |-> fmem', up |-> fup']
+Obs == [last |-> flast', sm |-> fsm', mem |-> fmem', up |-> fup', tmp |-> ftmp']
 
 Init ==
     /\ llog = <<>> /\ lsnap = NoSnap /\ nextHid = 1
     /\ fup \in BOOLEAN /\ flast = 0 /\ fsm = SM!Empty /\ fmem = InitMem /\ finst = NoSnap /\ ffile = <<>>
-    /\ sess = NoSess /\ strm = NoStrm /\ ops = 0 /\ hist = <<>>
+    /\ sess = NoSess /\ strm = NoStrm /\ ftmp = {} /\ ops = 0 /\ hist = <<>>
 
 \* ------------------------------------------------------------------ leader
 LWrite(r0) ==
@@ -102,26 +106,44 @@ LWrite(r0) ==
     /\ Len(llog) < MaxLog
     /\ llog' = Append(llog, r)
     /\ nextHid' = nextHid + SM!Inc(r0)
-    /\ UNCHANGED <<lsnap, fup, flast, fsm, fmem, finst, ffile, sess, strm>>
+    /\ UNCHANGED <<lsnap, fup, flast, fsm, fmem, finst, ffile, sess, strm, ftmp>>
     /\ Step([op |-> "lwrite", index |-> Len(llog) + 1, req |-> r])
 
 LMembers(m) ==
     /\ Len(llog) < MaxLog /\ m # MemAt(Len(llog))
     /\ llog' = Append(llog, [t |-> "members", m |-> m])
-    /\ UNCHANGED <<lsnap, nextHid, fup, flast, fsm, fmem, finst, ffile, sess, strm>>
+    /\ UNCHANGED <<lsnap, nextHid, fup, flast, fsm, fmem, finst, ffile, sess, strm, ftmp>>
     /\ Step([op |-> "lmembers", index |-> Len(llog) + 1, members |-> m])
 
 LCompact(k) ==
     /\ Len(llog) > 0 /\ (IF lsnap = NoSnap THEN TRUE ELSE lsnap.idx < Len(llog))
     /\ lsnap' = [idx |-> Len(llog), k |-> k]
-    /\ UNCHANGED <<llog, nextHid, fup, flast, fsm, fmem, finst, ffile, sess, strm>>
+    /\ UNCHANGED <<llog, nextHid, fup, flast, fsm, fmem, finst, ffile, sess, strm, ftmp>>
     /\ Step([op |-> "lcompact", index |-> Len(llog), k |-> k])
+
+\* ------------------------------------------------------------------ the follower's echo of a routed publish
+\* A client sent a publish to the follower; the follower routed it to the leader (it is entry flast + 1 of the
+\* leader's log, not replicated yet) and echoes the value locally (ConfigCmd::SetTmpValue): the follower serves
+\* the new content at once, as a temporary value.  Whatever brings the committed state later - the entry itself or
+\* a snapshot that contains it and later writes of the key - replaces the temporary value.
+Unecho == IF ftmp = {} THEN fsm
+          ELSE [fsm EXCEPT !.cfg = [k \in DOMAIN fsm.cfg |-> IF k \in ftmp THEN StateAt(flast).cfg[k] ELSE fsm.cfg[k]]]
+FEcho ==
+    /\ fup /\ ftmp = {} /\ flast < Len(llog)
+    /\ LET e == llog[flast + 1] IN
+         /\ e.t = "cfg_set" /\ e.k \in DOMAIN fsm.cfg /\ fsm.cfg[e.k].content # e.v
+         /\ fsm' = [fsm EXCEPT !.cfg[e.k].content = e.v]
+         /\ ftmp' = {e.k}
+         /\ UNCHANGED <<llog, lsnap, nextHid, fup, flast, fmem, finst, ffile, sess, strm>>
+         /\ Step([op |-> "fecho", k |-> e.k, v |-> e.v, prev |-> fsm.cfg[e.k].content, obs |-> Obs])
 
 \* ------------------------------------------------------------------ log replication (entry flast + 1)
 Replicate ==
     /\ fup /\ strm = NoStrm /\ flast < Len(llog)
     /\ LET e == llog[flast + 1] IN
-         /\ fsm' = SM!ApplyReq(fsm, e)
+         \* (the entry an echo anticipated is the next one: applying it makes the value regular)
+         /\ fsm' = SM!ApplyReq(Unecho, e)
+         /\ ftmp' = {}
          /\ fmem' = IF e.t = "members" THEN e.m ELSE fmem
          /\ flast' = flast + 1
          /\ UNCHANGED <<llog, lsnap, nextHid, fup, finst, ffile, sess, strm>>
@@ -131,7 +153,7 @@ Replicate ==
 StartStream ==
     /\ strm = NoStrm /\ (IF lsnap = NoSnap THEN FALSE ELSE flast < lsnap.idx)
     /\ strm' = [idx |-> lsnap.idx, k |-> lsnap.k, next |-> 1]
-    /\ UNCHANGED <<llog, lsnap, nextHid, fup, flast, fsm, fmem, finst, ffile, sess, ops, hist>>
+    /\ UNCHANGED <<llog, lsnap, nextHid, fup, flast, fsm, fmem, finst, ffile, sess, ops, hist, ftmp>>
 
 \* what finalize makes of the file: the snapshot is intact iff the file is exactly its cells
 Intact(file, idx, k) == file = Cells(idx, k)
@@ -160,14 +182,20 @@ Chunk(acked) ==
               /\ ffile' = <<>> /\ sess' = NoSess
               /\ flast' = strm.idx
               /\ fmem' = MemAt(strm.idx)
-              /\ fsm' = IF Defect_NoLiveLoad THEN fsm ELSE StateAt(strm.idx)
+              /\ fsm' = IF Defect_NoLiveLoad THEN fsm
+                        ELSE IF Defect_InstallKeepsTmp
+                        THEN LET t == StateAt(strm.idx) IN
+                             [t EXCEPT !.cfg = [k \in DOMAIN t.cfg |-> IF k \in ftmp THEN [t.cfg[k] EXCEPT !.content = fsm.cfg[k].content]
+                                                                       ELSE t.cfg[k]]]
+                        ELSE StateAt(strm.idx)
+              /\ ftmp' = IF Defect_NoLiveLoad THEN ftmp ELSE {}
               /\ strm' = IF acked THEN NoStrm ELSE strm
               /\ UNCHANGED <<llog, lsnap, nextHid, fup>>
               /\ Step([op |-> "chunk", snap |-> strm.idx, k |-> strm.k, c |-> c, done |-> TRUE, acked |-> acked,
                        last_log |-> flast, obs |-> Obs])
          ELSE /\ ffile' = written /\ sess' = [offset |-> pos + 1]
               /\ strm' = IF acked THEN [strm EXCEPT !.next = c + 1] ELSE strm
-              /\ UNCHANGED <<llog, lsnap, nextHid, fup, flast, fsm, fmem, finst>>
+              /\ UNCHANGED <<llog, lsnap, nextHid, fup, flast, fsm, fmem, finst, ftmp>>
               /\ Step([op |-> "chunk", snap |-> strm.idx, k |-> strm.k, c |-> c, done |-> FALSE, acked |-> acked,
                        last_log |-> flast, obs |-> Obs])
 
@@ -177,18 +205,18 @@ DupFinal(acked) ==
     /\ AlreadyInstalled /\ fup
     /\ finst' = IF Defect_ReinstallOnDup THEN [idx |-> strm.idx, file |-> <<>>, k |-> strm.k] ELSE finst
     /\ strm' = IF acked THEN NoStrm ELSE strm
-    /\ UNCHANGED <<llog, lsnap, nextHid, fup, flast, fsm, fmem, ffile, sess>>
+    /\ UNCHANGED <<llog, lsnap, nextHid, fup, flast, fsm, fmem, ffile, sess, ftmp>>
     /\ Step([op |-> "chunk", snap |-> strm.idx, k |-> strm.k, c |-> strm.k + 1, done |-> TRUE, acked |-> acked,
              last_log |-> flast, obs |-> Obs])
 
 \* the leader's replication stream is torn down (leader restart, leadership change): a later stream starts over
 StreamAbort ==
     /\ strm # NoStrm /\ strm' = NoStrm
-    /\ UNCHANGED <<llog, lsnap, nextHid, fup, flast, fsm, fmem, finst, ffile, sess, ops, hist>>
+    /\ UNCHANGED <<llog, lsnap, nextHid, fup, flast, fsm, fmem, finst, ffile, sess, ops, hist, ftmp>>
 
 \* ------------------------------------------------------------------ follower crash / start
 FCrash ==
-    /\ fup /\ fup' = FALSE /\ sess' = NoSess
+    /\ fup /\ fup' = FALSE /\ sess' = NoSess /\ ftmp' = {}
     /\ UNCHANGED <<llog, lsnap, nextHid, flast, fsm, fmem, finst, ffile, strm>>
     /\ Step([op |-> "fcrash"])
 
@@ -196,7 +224,7 @@ FCrash ==
 FStart ==
     /\ ~fup /\ fup' = TRUE
     /\ fsm' = StateAt(flast) /\ fmem' = MemAt(flast)
-    /\ UNCHANGED <<llog, lsnap, nextHid, flast, finst, ffile, sess, strm>>
+    /\ UNCHANGED <<llog, lsnap, nextHid, flast, finst, ffile, sess, strm, ftmp>>
     /\ Step([op |-> "fstart", obs |-> Obs])
 
 Next ==
@@ -204,6 +232,7 @@ Next ==
     \/ \E m \in MemberSets : LMembers(m)
     \/ \E k \in 1..MaxChunks : LCompact(k)
     \/ Replicate
+    \/ FEcho
     \/ StartStream
     \/ \E a \in BOOLEAN : Chunk(a)
     \/ \E a \in BOOLEAN : DupFinal(a)
@@ -216,10 +245,10 @@ Spec == Init /\ [][Next]_vars
 \* the installed snapshot file is exactly what the leader streamed
 InstalledIntact == IF finst = NoSnap THEN TRUE ELSE Intact(finst.file, finst.idx, finst.k)
 \* C08: a running follower serves the leader's prefix it has acknowledged, with its membership
-FollowerServesPrefix == fup => (fsm = StateAt(flast) /\ fmem = MemAt(flast))
+FollowerServesPrefix == fup => (Unecho = StateAt(flast) /\ fmem = MemAt(flast))
 \* (restart is covered by FStart defining fsm' from the contract and InstalledIntact making that possible)
 
 Done == ops = MaxOps
 ExportBehaviour == Done => PrintT(<<"REPLAY", ToJson([steps |-> hist])>>)
-View == <<llog, lsnap, fup, flast, fsm, fmem, finst, ffile, sess, strm>>
+View == <<llog, lsnap, fup, flast, fsm, fmem, finst, ffile, sess, strm, ftmp>>
 =============================================================================
